@@ -440,6 +440,18 @@ class C04(Harness):
         for nm, est in (("ensemble", ENS([("a", NF()), ("b", NF("mean"))])), ("multiplexer", MUX([("a", NF()), ("b", NF("mean"))], selected_forecaster="a")),
                         ("stacking", stk), ("pipeline", PIPE([("t", DES()), ("f", NF())])), ("depth2", e2), ("tuner", gs), ("column_ensemble", cer)):
             out["closed_" + nm] = {"written": ["id", True], "missing": self._deep_missing(est)}
+        # replacement by name in the column ensemble (its component list is a computed view), and no aliasing between
+        # two composites built from the same list object
+        ce2 = CE([("c0", DummyClassifier(), [0]), ("c1", DummyClassifier(), [0])])
+        newc = DummyClassifier(strategy="constant", constant=v)
+        ce2.set_params(c1=newc)
+        out["column_ensemble_replace"] = {"written": ["id", ce2.estimators[1][1] is newc and ce2.get_params()["c1"] is newc], "replaced": ce2.estimators[1][1] is newc, "others_kept": 2 if ce2.estimators[0][0] == "c0" and len(ce2.estimators) == 2 else 0,
+                                          "nested_after_replace": self._same(ce2.get_params().get("c1__constant", "<no such key>"), v), "unknown_nested": "ValueError"}
+        shared = [("a", NF()), ("b", NF("mean"))]
+        first, second = shared[0][1], shared[1][1]
+        ea, eb = ENS(shared), ENS(shared)
+        ea.set_params(b=NF("drift"))
+        out["no_aliasing"] = {"written": ["id", dict(eb.forecasters)["b"] is second and shared[1][1] is second and shared[0][1] is first and dict(ea.forecasters)["b"] is not second]}
         ce = CE([("c0", DummyClassifier(), [0]), ("c1", DummyClassifier(), [0])])
         try:
             ce.set_params(c1__random_state=v)
@@ -502,34 +514,47 @@ class C04(Harness):
                 rec["clone_fitted"] = bool(clone(est).is_fitted)
             except Exception as e:  # noqa
                 rec["clone_fitted"] = "raised:%s" % type(e).__name__
-            for meth in APPLY:
-                f = getattr(est, meth, None)
-                if f is None or not callable(f):
-                    continue
+            def apply_all(est_, rec_):
+                for meth in APPLY:
+                    f = getattr(est_, meth, None)
+                    if f is None or not callable(f):
+                        continue
+                    try:
+                        sig = inspect.signature(f)
+                        req = [p for p in sig.parameters.values() if p.default is inspect._empty and p.kind in (p.POSITIONAL_ONLY, p.POSITIONAL_OR_KEYWORD)]
+                    except (TypeError, ValueError):
+                        continue
+                    args = []
+                    for p in req:
+                        if p.name in ("y", "Z", "X", "y_new", "y_test", "y_train"):
+                            args.append(yp if (p.name == "y" and not series_like) else arg)
+                        elif p.name == "fh":
+                            args.append(1)
+                        else:
+                            args.append(arg)
+                    if issubclass(cls, BF) and meth == "predict":
+                        args = [1]
+                    try:
+                        f(*args)
+                        rec_[meth] = "returned"
+                    except NFE:
+                        rec_[meth] = "NotFittedError"
+                    except NotImplementedError:
+                        rec_[meth] = "NotImplementedError"
+                    except Exception as e:  # noqa
+                        rec_[meth] = "other:%s" % type(e).__name__
+
+            apply_all(est, rec)
+            # the guard must not depend on the configuration: every Boolean option flipped, one at a time
+            flips = [p for p in ps if isinstance(p.default, bool)][:4]
+            for p in flips:
                 try:
-                    sig = inspect.signature(f)
-                    req = [p for p in sig.parameters.values() if p.default is inspect._empty and p.kind in (p.POSITIONAL_ONLY, p.POSITIONAL_OR_KEYWORD)]
-                except (TypeError, ValueError):
+                    est_f = cls(**dict(kw, **{p.name: not p.default}))
+                except Exception:  # noqa
                     continue
-                args = []
-                for p in req:
-                    if p.name in ("y", "Z", "X", "y_new", "y_test", "y_train"):
-                        args.append(yp if (p.name == "y" and not series_like) else arg)
-                    elif p.name == "fh":
-                        args.append(1)
-                    else:
-                        args.append(arg)
-                if issubclass(cls, BF) and meth == "predict":
-                    args = [1]
-                try:
-                    f(*args)
-                    rec[meth] = "returned"
-                except NFE:
-                    rec[meth] = "NotFittedError"
-                except NotImplementedError:
-                    rec[meth] = "NotImplementedError"
-                except Exception as e:  # noqa
-                    rec[meth] = "other:%s" % type(e).__name__
+                sub = {}
+                apply_all(est_f, sub)
+                rec["flip:" + p.name] = sub
             # generic fit protocol: whenever fit returns (no exception), it returned the object itself and the object
             # reports fitted.  Environment failures (missing numba, removed numpy aliases, ...) are recorded, not judged.
             def _alarm(sig, frm):
@@ -693,6 +718,10 @@ class C04(Harness):
                 for meth in APPLY:
                     if meth in rec:
                         P.check("apply-before-fit-raises-NotFittedError", rec[meth] in ("NotFittedError", "NotImplementedError"), dict(d, method=meth, result=rec[meth]))
+                for key, sub in rec.items():
+                    if key.startswith("flip:"):
+                        for meth, res in sub.items():
+                            P.check("apply-before-fit-raises-NotFittedError", res in ("NotFittedError", "NotImplementedError"), dict(d, method=meth, result=res, option=key[5:] + " flipped"))
                 fr = rec.get("fit", {})
                 if "raised" not in fr and fr:
                     P.check("fit-returns-self-and-sets-fitted", fr["returns_self"] and fr["fitted"], dict(d, method="fit", rec={k2: str(v) for k2, v in fr.items()}))
